@@ -15,6 +15,7 @@ import os
 import re
 
 import common as C
+import c08_util
 from common import cstr, clist, copt, cbool
 
 IMPORTS = "From DJC Require Import Lib.Base DepsRender.Model."
@@ -198,7 +199,7 @@ class Table:
     """Names for the (long) generated JS/CSS strings so that case literals stay small."""
 
     def __init__(self):
-        self.names, self.defs = {}, []
+        self.names, self.defs, self.by_name = {}, [], {}
 
     def name(self, s):
         if s == "":
@@ -206,6 +207,7 @@ class Table:
         if s not in self.names:
             self.names[s] = "g%d" % len(self.names)
             self.defs.append("Definition %s : str := %s." % (self.names[s], cstr(s)))
+            self.by_name[self.names[s]] = self.defs[-1]
         return self.names[s]
 
     def compress(self, out, strings):
@@ -464,8 +466,7 @@ def run(tier, seed):
     for pieces, ty, kind, label in gen_endtag_in_inserted(chk, world, thorough):
         one_case(chk, world, tab, pieces, ty, kind, label, cases)
     phase("render-impl+oracle")
-    defs = "\n".join(tab.defs)
-    bad = C.coq_eval_cases("C08", "render", IMPORTS, "render_case", "check_render", [t for t, _ in cases], shard=SHARD, extra_defs=defs)
+    bad = c08_util.coq_eval_cases("C08", "render", IMPORTS, "render_case", "check_render", [t for t, _ in cases], tab.by_name, shard=SHARD)
     for i in bad[:20]:
         chk.disagree("model render_any != render_dependencies", cases[i][1])
 
@@ -508,8 +509,7 @@ def run(tier, seed):
                 mw_cases.append(("(%s, %s, %s, %s, %s, %s, %s)" % (
                     cbool(streaming), copt(ct, cstr), cstr(body), clist([cstr(h) for h in world.known([p.split(",")[0] for p in src_parts])]),
                     tab.name(js), tab.name(css), tr), replay))
-    defs = "\n".join(tab.defs)
-    bad = C.coq_eval_cases("C08", "mw", IMPORTS, "mw_case", "check_mw", [t for t, _ in mw_cases], shard=SHARD, extra_defs=defs)
+    bad = c08_util.coq_eval_cases("C08", "mw", IMPORTS, "mw_case", "check_mw", [t for t, _ in mw_cases], tab.by_name, shard=SHARD)
     for i in bad[:20]:
         chk.disagree("model process_response != ComponentDependencyMiddleware", mw_cases[i][1])
 
@@ -578,18 +578,22 @@ def run(tier, seed):
         "matching on UTF-8 bytes and on code points selects the same spans for the two bytes-mode patterns (all literals ASCII)",
     ]
     return chk.finish(
-        rule="documents = all arrangements of <= 4 pieces from a 9-piece alphabet (non-ASCII text, </head>, </body >, both placeholders, a real "
-             "marker, the halves '</he' 'ad>', </HEAD>) + seeded random documents of 2..12 pieces from a 77-piece pool (text, 8 end-tag variants, "
-             "11 end-tag look-alikes, 7 placeholder variants, 10 placeholder look-alikes, real markers of 5 components with whitespace variants, "
-             "rendered components, 9 marker look-alikes, split tokens) x {document, fragment} x {str, SafeString, UTF-8 bytes}; malformed / "
-             "unknown-hash markers; middleware x 11 content types x streaming; matcher differential on all strings <= 4 pieces over each "
-             "pattern's alphabet. Non-trivial = at least one real marker and at least one end tag (and no error outcome). Distinct = distinct "
-             "(document, type, input kind).",
-        explanation="theorems of Props/C08.v re-checked by coqc; the Gallina model is evaluated by vm_compute on every case and compared with the "
-                    "observed result (output symbols, result type, exception class); an independent Python statement of the property "
-                    "(spec_render) is the direct oracle on every case.",
+        rule="documents = all arrangements of <= 4 (thorough: + a third of the 5-piece ones) pieces from a 9-piece alphabet (non-ASCII text, "
+             "</head>, </body >, both placeholders, a real marker, the halves '</he' 'ad>', </HEAD>); the marker of a component whose JS holds "
+             "'</head>' and whose CSS holds '</body>' (and non-ASCII text) followed by all arrangements of <= 4 pieces from a 7-piece alphabet "
+             "(both end tags, both placeholders, text, the halves '</head' '>'); seeded random documents of 2..12 pieces from a 77-piece pool "
+             "(text, 8 end-tag variants, 11 end-tag look-alikes, 7 placeholder variants, 10 placeholder look-alikes, real markers of 6 components "
+             "with whitespace variants, rendered components, 9 marker look-alikes, split tokens) x {document, fragment} x {str, SafeString, "
+             "UTF-8 bytes}; malformed / unknown-hash markers; middleware x 11 content types x streaming; matcher differential on all strings "
+             "<= 4 pieces over each pattern's alphabet. Non-trivial = at least one real marker and at least one end tag (and no error "
+             "outcome). Distinct = distinct (document, type, input kind).",
+        explanation="theorems of Props/C08.v re-checked by coqc (main theorem: model = one-pass specification for all documents); the Gallina "
+                    "model is evaluated by vm_compute on EVERY generated case and compared with the observed result (output symbols, result "
+                    "type, exception class, marker data harvested); an independent Python statement of the property (spec_render, own copies "
+                    "of the documented patterns) is the direct oracle on every case.",
         extra_trusted=["modelled, not verified: Python re (each pattern has a hand matcher, anchored to the pattern string of the current source and "
-                       "compared with re on every run), str.encode/decode, Django HttpResponse / mark_safe",
+                       "compared with re on every run; the matchers are proved sound and complete for the declarative marker / placeholder "
+                       "grammar), str.encode/decode (symbols are code points), Django HttpResponse / mark_safe",
                        "generated JS/CSS strings are inputs of the model (function `deps`, arbitrary in the theorems)"])
 
 
